@@ -69,6 +69,21 @@ async fn limit_is_exact_however_it_splits_between_history_and_live() {
 }
 
 #[tokio::test(flavor = "multi_thread", worker_threads = 4)]
+async fn limit_counts_only_frames_that_were_delivered() {
+    let d = tempfile::tempdir().unwrap();
+    let store = Store::new(d.path().to_path_buf());
+    let a = store.append(Frame::builder("xs.context", ZERO_CONTEXT).build()).unwrap().id;
+    let b = store.append(Frame::builder("xs.context", ZERO_CONTEXT).build()).unwrap().id;
+    let mut want = vec![store.append(Frame::builder("t", a).build()).unwrap().id];
+    let mut rx = store.read(ReadOptions::builder().follow(FollowOption::On).limit(3).context_id(a).build()).await;
+    tokio::time::sleep(Duration::from_millis(80)).await;
+    for c in [b, b, b, a, b, a, a, a] { let f = store.append(Frame::builder("t", c).build()).unwrap(); if c == a && want.len() < 3 { want.push(f.id); } }
+    let (got, closed) = recv_until_quiet(&mut rx, Duration::from_millis(1200)).await;
+    assert_eq!(data(&got), want, "C11: limit=3 in context A: frames of context B that were filtered out must not count against the limit");
+    assert!(closed, "C11: the stream must end after the limit");
+}
+
+#[tokio::test(flavor = "multi_thread", worker_threads = 4)]
 async fn tail_skips_history_and_contexts_are_isolated() {
     let d = tempfile::tempdir().unwrap();
     let store = Store::new(d.path().to_path_buf());
